@@ -35,6 +35,8 @@ def templates():
         # a literal as the DIRECT argument of a function (a dialect-level rendering of the function must keep it a parameter)
         ("f1 eq floor({f})", "Float"), ("f1 lt ceiling({f})", "Float"), ("round({f}) le f1", "Float"), ("i1 eq length({s})", "String"),
         ("s1 eq tolower({s})", "String"), ("s1 eq toupper({s}) or s2 eq trim({s})", "String"), ("s1 eq substring({s}, 1)", "String"),
+        ("length(trim({s})) eq 5", "String"), ("concat(trim({s}), 'x') eq s1", "String"), ("tolower(trim({s})) eq s1", "String"), ("indexof(s1, toupper({s})) eq 1", "String"),
+        ("contains(s1, trim({s}))", "String"), ("substring(concat({s}, s1), 1) eq s2", "String"), ("length(concat(tolower({s}), toupper({s}))) gt i1", "String"),
         ("i1 eq year({d})", "Date"), ("i1 eq month({dt}) or i1 eq hour({dt})", "DateTime"), ("f1 gt floor({i})", "Integer"), ("i1 add length({s}) gt {i}", "String"),
     ]
 
